@@ -6,6 +6,7 @@ CONSTANTS
   MaxUid = 4
   MaxCode = 3
   NFlagSets = 2
+  SyncLit = FALSE
   Kinds = {"LOGIN", "SELECT", "CLOSE", "UNAUTH", "LOGOUT"}
   Greetings = {"OK", "PREAUTH"}
   SimDepth = 60
